@@ -235,7 +235,7 @@ func TestVerifRaceME(t *testing.T) {
 			}
 			gme.mu.RUnlock()
 			if mc != nil {
-				mc.notify([]connectivity.State{connectivity.Ready, connectivity.TransientFailure}[i%2])
+				verifDeliver(mc, []connectivity.State{connectivity.Ready, connectivity.TransientFailure}[i%2])
 			}
 			time.Sleep(200 * time.Microsecond)
 		}
@@ -272,7 +272,7 @@ func TestVerifRaceME(t *testing.T) {
 				}
 				gme.mu.RUnlock()
 				for _, mc := range mcs {
-					mc.notify([]connectivity.State{connectivity.Ready, connectivity.TransientFailure, connectivity.TransientFailure}[i%3])
+					verifDeliver(mc, []connectivity.State{connectivity.Ready, connectivity.TransientFailure, connectivity.TransientFailure}[i%3])
 				}
 				time.Sleep(time.Duration(100+50*g) * time.Microsecond)
 			}
